@@ -330,7 +330,7 @@ func TestC05(t *testing.T) {
 		"float64 direct convolution with the gamma_K forward bound (K = C*kh*kw + 1); a refusal is allowed by the statement ('a configuration the library does not implement is refused')")
 	defer reportKnownFindings("C05")
 
-	check(t, "conv", 5000, 60000, func(rt *rapid.T) {
+	check(t, "conv", 5000, 30000, func(rt *rapid.T) {
 		var c c05Case
 		c.g = genConvGeom(rt)
 		c.dt = rapid.SampledFrom([]tensor.Dtype{tensor.Float32, tensor.Float32, tensor.Float64}).Draw(rt, "dtype")
@@ -396,6 +396,24 @@ func TestC05(t *testing.T) {
 			}
 			if v := c05Judge(c2, second); v != "" {
 				rt.Fatalf("C05 violated by %v when the weight tensor object of a previous call is passed again with new contents: %s", c2, v)
+			}
+		}
+		// a Conv node of a Model serves inputs of many batch sizes and spatial extents: an instance
+		// that has served another request answers this one exactly like a fresh instance
+		if res.ok() && rapid.IntRange(0, 3).Draw(rt, "reusedInstance") == 0 {
+			n1 := rapid.IntRange(1, 3).Draw(rt, "otherN")
+			in1 := make([]int, len(g.in))
+			for a := range in1 {
+				in1[a] = g.in[a] + rapid.IntRange(0, 3).Draw(rt, "otherExtentPlus")
+			}
+			x1 := toDtype(c.dt, append([]int{n1, g.c}, in1...), genDotValues(rt, n1*g.c*prod(in1), "otherX"))
+			first := []tensor.Tensor{x1, cloneT(c.w)}
+			if c.b != nil {
+				first = append(first, cloneT(c.b))
+			}
+			ev.Class("C05", "instance-reused-after-another-input-size")
+			if d := reuseDifferential("Conv", node, first, c.inputs()); d != "" {
+				rt.Fatalf("C05 violated by %v after the same operator instance convolved an input of shape %v: %s", c, x1.Shape(), d)
 			}
 		}
 		if rapid.IntRange(0, 4).Draw(rt, "modelLevel") == 0 {
